@@ -260,3 +260,16 @@ Proof.
   destruct (Hgen _ _ tr (json_inv_init d) E) as [Hc|Hex]; [|exact Hex].
   exfalso. rewrite Hc, Hlen in Hb. pose proof (len_nonneg d). lia.
 Qed.
+
+(* non-vacuity: on the input  1 1  the third call is a terminal report *)
+Example ex_idle :
+  let p := mkP (mkLx [49; 32; 49; 0] 2 2) [0] (Some 2) true 0 in
+  exists tr, trace 2 (json_init [49; 32; 49]) = Some tr /\ last_parser (json_init []) tr = p /\
+             json_inv [49; 32; 49] p /\ exists p1, next p = Some ((G_Error, None), p1) /\ idle p (G_Error, None) p1.
+Proof.
+  cbn zeta. destruct (trace_steps [49; 32; 49] 2 _ (json_inv_init _)) as (tr & E & _ & Hs).
+  pose proof (steps_last_inv _ tr _ (json_inv_init _) Hs) as Hinv.
+  vm_compute in E. inversion E; subst tr. clear E Hs.
+  eexists. split; [vm_compute; reflexivity|]. split; [reflexivity|]. split; [exact Hinv|].
+  eexists. split; [vm_compute; reflexivity|]. repeat split.
+Qed.
